@@ -72,7 +72,26 @@ def op_slow(xs, delay=0.0):
   return list(xs)
 
 
-_OPS = {'affine': op_affine, 'square': op_square, 'slow': op_slow}
+FAIL_MARK = 'c16-application-error'
+
+
+def op_fail_on(xs, value=-1):
+  """Application error on the record that contains `value` (not retriable)."""
+  if value in xs:
+    raise ValueError(f'{FAIL_MARK}: record with {value} cannot be processed')
+  return list(xs)
+
+
+def op_stall_on(xs, value=-1, delay=0.0):
+  """The record that contains `value` takes `delay` s (longer than a call deadline)."""
+  if value in xs:
+    time.sleep(delay)
+  return list(xs)
+
+
+# ('fail_on' / 'stall_on' are the identity for the reference: it describes the complete run)
+_OPS = {'affine': op_affine, 'square': op_square, 'slow': op_slow,
+        'fail_on': op_fail_on, 'stall_on': op_stall_on}
 
 
 def records(n, rec):
